@@ -174,6 +174,7 @@ MUTANTS = {
         {"name": "revert_fix_dict_assignment_merge", "kind": "revert", "commit": "0497686"},
         {"name": "revert_fix_style_reset", "kind": "revert", "commit": "f3dd4e6"},
         {"name": "revert_fix_label_key", "kind": "revert", "commit": "282ec0a"},
+        {"name": "revert_fix_tricoll_traces", "kind": "revert", "commit": "d85c7fa"},
         {"name": "revert_fix_alias", "kind": "revert", "commit": "0b26a89"},
         {"name": "reset_merges_into_current_values", "kind": "sub", "file": "magpylib/_src/defaults/defaults_classes.py",
          "old": "        for key, val in get_defaults_dict().items():\n            setattr(self, key, None)\n            setattr(self, key, val)\n",
